@@ -6,6 +6,7 @@ mod c06;
 mod c08;
 mod c09;
 mod c10;
+mod c12;
 mod c17;
 mod c20;
 mod transports;
@@ -17,7 +18,7 @@ fn main() {
         eprintln!("usage: nunverif <property|selftest> <quick|thorough> [args]");
         std::process::exit(64);
     }
-    if args[1] != "load-probe" {
+    if args[1] != "load-probe" && args[1] != "C12-child" {
         common::init_default_dir();
     }
     let tier = args.get(2).map(|s| s.as_str()).unwrap_or("quick");
@@ -30,6 +31,8 @@ fn main() {
         "C08" => c08::run(tier),
         "C09" => c09::run(tier),
         "C10" => c10::run(tier),
+        "C12" => c12::run(tier),
+        "C12-child" => c12::child(&args),
         "C17" => c17::run(tier),
         "C20" => c20::run(tier),
         "load-probe" => c06::load_probe_child(&args[3]),
